@@ -53,9 +53,13 @@ let render (p : pool) (errs : err list) : string =
     | None -> "x"
     | Some [] -> "-"
     | Some l -> csv_ints (List.sort compare (List.map (fun t -> int_of_n t.t_id) l)) in
-  Printf.sprintf "e=%s p=%s q=%s n=%s s=%d/%d l=%s a=%s g=%s t=%s j=%s sl=%s"
+  (* the price heap: stale counter / number of entries : live entries (of indexed remote txs; which of
+     several equal stale entries was popped is not observable) *)
+  let live = List.filter (fun t -> all_get_remote p.p_all t.t_id <> None) p.p_heap in
+  let h = csv_ints (List.sort compare (List.map (fun t -> int_of_n t.t_id) live)) in
+  Printf.sprintf "e=%s p=%s q=%s n=%s s=%d/%d l=%s a=%s g=%s t=%s j=%s sl=%s h=%s/%d:%s"
     e (render_lists p.p_pending) (render_lists p.p_queue) n (List.length p.p_pending) (List.length p.p_queue)
-    (csv_ints locals) a (string_of_z p.p_gasprice) t j (string_of_z (all_slots p.p_all))
+    (csv_ints locals) a (string_of_z p.p_gasprice) t j (string_of_z (all_slots p.p_all)) (string_of_z p.p_stales) (List.length p.p_heap) h
 
 let rec perms = function
   | [] -> [[]]
